@@ -122,6 +122,7 @@ def run(ctx, chk):
         if not qs:
             chk.missing('C12.O1', 'chrony query call site in the poll loop')
 
+    client_entry_order(fb, chk)
     # ---------------------------------------------------------------- O2 client
     cm = ClientModel(fb, chk, 'C12.O2')
     if cm.ok:
@@ -146,6 +147,29 @@ def run(ctx, chk):
                 chk.ob('C12.O2', 'now:roles', uses_real and not _centre_is(e, info['mono']), p.where[2],
                        'interval centre uses the REALTIME reading: %s' % uses_real)
         chk.floor('C12.O2', 'paths of now() with two clock reads', n2, 1)
+
+
+def client_entry_order(fb, chk):
+    """O5: both client entry points take the snapshot of the segment first and read the clocks afterwards: a delay between a
+    clock read and a *later* snapshot lets the call pick up a record published after the clock was read, whose age is then
+    counted from its own as-of -- the delay shrinks the interval instead of widening it"""
+    from . import wrappers_model
+    ws = wrappers_model.load(fb, chk, 'C12.O5')
+    n = 0
+    for name, w in ws.items():
+        for r in w.rows:
+            p = r['path']
+            calls = [(k, ef) for k, ef in enumerate(p.effects) if ef['kind'] == 'call' and not ef['tracing']]
+            snaps = [k for k, ef in calls if ef['callee'].startswith(common.SHM) and ef['callee'].endswith('::snapshot')]
+            reads = [(k, ef) for k, ef in calls if common.is_clock_read(ef['callee']) or ef['callee'] in common.CLOCK_READERS]
+            if not snaps:
+                continue
+            n += 1
+            early = [(k, ef) for k, ef in reads if k < snaps[0]]
+            chk.ob('C12.O5', '%s:clocks-read-after-the-snapshot' % name, not early, (early[0][1] if early else p.effects[snaps[0]])['site'][2],
+                   'the %s client entry point %s' % (name, 'takes its snapshot before any clock read' if not early else
+                   'reads a clock (%s) BEFORE taking the snapshot: a record published in between is aged from its own as-of' % early[0][1]['callee'].split('::')[-1]))
+    chk.floor('C12.O5', 'client entry paths with a snapshot', n, 2)
 
 
 def _centre_is(v, leaf):
